@@ -223,6 +223,19 @@ def clause6(P, res):
                          where=f"{baton.file}:{baton.line}", witness=[f"multi-item publisher {b.id}" for b in batchers[:3]])
 
 
+def clause7(P, res):
+    """the disconnect that wakes blocked peers can actually happen: same instances as C04-9, judged for the waiters"""
+    from rules import c04, common
+    rid = "C05-7"
+    sub = Result("C05")
+    c04.clause9(P, sub, common.handles(P))
+    res.rule(rid, "the last-handle disconnect (the only event that wakes a peer blocked on an empty/full channel whose other side is gone) remains reachable: a clone that is "
+                  "counted in shared state is born open, so its Drop gives the count back — a counted clone born closed pins the count above zero and every parked "
+                  "peer waits forever")
+    for i in sub.instances:
+        res.add(rid, i.key.split(":", 2)[2], i.status, i.detail, i.witness, i.nontrivial, i.obligations, i.where)
+
+
 def run(P, ctx):
     res = Result("C05")
     res.extra["explanation"] = "Park/notify protocol shapes at every site that blocks a thread in fibre's channels."
@@ -232,4 +245,5 @@ def run(P, ctx):
     clause4(P, res)
     clause5(P, res)
     clause6(P, res)
+    clause7(P, res)
     return res
